@@ -63,11 +63,17 @@ def gen_script(rng, pid):
             steps.append({"at": ft, "do": "inject", "action": "error", "api": "Produce", "topic": topic, "partition": part,
                           "code": rng.choice([6, 19, 7, 10]), "times": None})
         elif style == "transport":
-            act = rng.choice(["drop_before", "drop_after", "silent", "delay"])
-            st = {"at": ft, "do": "inject", "action": act, "api": "Produce", "topic": topic, "times": rng.choice([1, 1, 2])}
-            if act == "delay":
-                st["seconds"] = rng.choice([0.5, 2, 20])
-            steps.append(st)
+            act = rng.choice(["drop_before", "drop_after", "silent", "delay", "unreachable", "unreachable"])
+            if act == "unreachable":
+                node = rng.randrange(1, brokers + 1)
+                steps.append({"at": ft, "do": "set", "broker": node, "attr": "mode", "value": rng.choice(["blackhole", "refuse"])})
+                if rng.random() < 0.5:
+                    steps.append({"at": ft + rng.choice([1, 4, 15]), "do": "set", "broker": node, "attr": "mode", "value": "accept"})
+            else:
+                st = {"at": ft, "do": "inject", "action": act, "api": "Produce", "topic": topic, "times": rng.choice([1, 1, 2])}
+                if act == "delay":
+                    st["seconds"] = rng.choice([0.5, 2, 20])
+                steps.append(st)
         else:
             if brokers > 1:
                 if rng.random() < 0.5:
@@ -102,6 +108,7 @@ class FSRun(object):
         self.outstanding_at_stop = None
         self.error = None
         self.cluster = None
+        self.lost = []
 
 
 def run_script(script):
@@ -158,6 +165,8 @@ def run_script(script):
                 elif do == "inject":
                     kw2 = {k: v for k, v in st.items() if k not in ("at", "do")}
                     cluster.inject(kw2.pop("action"), **kw2)
+                elif do == "set":
+                    setattr(cluster.brokers[st["broker"]], st["attr"], st["value"])
                 elif do in ("move_leader", "kill_broker", "start_broker"):
                     kw2 = {k: v for k, v in st.items() if k not in ("at", "do")}
                     getattr(cluster, do)(**kw2)
@@ -166,6 +175,10 @@ def run_script(script):
                 cluster.settle()
             cluster.run_until_idle(timeout=max(0.0, script.get("until", 200.0) - cluster.clock.seconds()))
             r.quiet = cluster.next_timer() is None
+            # sends that were dispatched (not queued any more), never fired, while no batch is in flight
+            queued = set(id(q.deferred) for q in producer._batch_reqs)
+            r.lost = [sid for sid, sd in r.sends.items() if not r.outcomes[sid] and id(sd["d"]) not in queued] \
+                if producer._batch_send_d is None else []
             if producer._sendLooper is not None and r.stop_t is None:
                 # the periodic timer never lets the reactor go idle: stop the producer to finish
                 r.final_stop = True
@@ -179,6 +192,32 @@ def run_script(script):
 def _contains(hay, needle):
     n = len(needle)
     return any(hay[i:i + n] == needle for i in range(len(hay) - n + 1))
+
+
+def segment(r, want, topic, msgs, must=None):
+    """split a partition's message list into whole sends in submission order -> {sid: start index} | None.
+    Sends with identical content cannot be told apart: with `must`, look for a split that contains it."""
+    cands = [sid for sid in sorted(want) if r.sends[sid]["topic"] == topic]
+
+    def seg(i, last):
+        if i == len(msgs):
+            return [{}]
+        out = []
+        for sid in cands:
+            w = want[sid]
+            if sid > last and msgs[i:i + len(w)] == w:
+                for rest in seg(i + len(w), sid):
+                    d = dict(rest)
+                    d[sid] = i
+                    out.append(d)
+                    if must is None or must in d:
+                        return [d]
+        return out[:4]
+
+    res = seg(0, -1)
+    if must is not None:
+        res = [d for d in res if must in d] or res
+    return res[0] if res else None
 
 
 def produce_requests(cluster):
@@ -251,11 +290,9 @@ def check(r, pid):
                 if a.get("op") == "append" and a["topic"] == topic and a["partition"] == partition and a["error"] == 0 \
                         and a["base_offset"] == offset:
                     kv = [(k, v) for (_o, k, v) in a["messages"]]
-                    w = want[sid]
-                    for i in range(len(kv) - len(w) + 1):
-                        if kv[i:i + len(w)] == w:
-                            found = a["messages"][i][0]  # absolute offset of the send's first message
-                            break
+                    seg = segment(r, want, topic, kv, must=sid)
+                    if seg is not None and sid in seg:
+                        found = a["messages"][seg[sid]][0]  # absolute offset of the send's first message
         if found is None:
             bad("success-not-acked", "send %d succeeded with %r but no answered produce request appended its messages at that offset" % (sid, res))
         else:
@@ -263,22 +300,13 @@ def check(r, pid):
             if not _contains(log, want[sid]):
                 bad("success-not-in-log", "send %d acknowledged but its messages are not in the log of %s/%d" % (sid, topic, partition))
             acked[sid] = (topic, partition, found, t, n)
+    for sid in r.lost:
+        bad("never-fired", "send %d was dispatched, no batch is in flight any more, and its Deferred never fired" % sid)
     if pid in ("C09", "C01"):
         # submission order inside every request; whole sends only
         for e, parts in reqs:
             for topic, part, msgs in parts:
-                cands = [sid for sid in sorted(want) if r.sends[sid]["topic"] == topic]
-
-                def seg(i, last):
-                    if i == len(msgs):
-                        return True
-                    for sid in cands:
-                        w = want[sid]
-                        if sid > last and msgs[i:i + len(w)] == w and seg(i + len(w), sid):
-                            return True
-                    return False
-
-                if not seg(0, -1):
+                if segment(r, want, topic, msgs) is None:
                     bad("payload-not-whole-sends-in-order", "produce request n=%d %s/%d: its messages are not whole sends in submission order" % (e["n"], topic, part))
         by_tp = {}
         for sid, (topic, part, off, t, n) in acked.items():
